@@ -127,6 +127,28 @@ PROPS["C02"] = {
 }
 
 
+PROPS["C08"] = {
+    "module": "PropC08",
+    "theorems": ["C08_container_invariant", "C08_detection_results_ranked", "C08_dominant_first", "C08_dominated_last",
+                 "C08_get_best_first", "C08_prefers_is_two_sided", "C08_f32_order_total", "C08_sort_is_permutation"],
+    "model_targets": ["Model/Matches.vo"],
+    "runs": [{"level": "container", "args_quick": ["--n", "500"], "args_thorough": ["--n", "40000"]},
+             detect_run("C08", 150, 3000)],
+    "search": {"level": "container", "args": ["--n", "6000"]},
+    "rule": "containers of 1..64 matches built through the hook constructor with keys from tie-heavy / cyclic grids (chaos on and "
+            "around 0.01-boundaries, coherence on and around 0.02-boundaries, NaN, -0, +inf, multi-byte usage via text/payload "
+            "lengths, 1 in 8 items repeating an earlier text to exercise the merge rule), via new() and via append() in sequence; "
+            "for <= 20 items the real order must EQUAL the model's, above 20 the same multiset plus dominant-first / dominated-last "
+            "on the real container; 8 random pairs per container compared with Matches.cmp_key bit for bit and with an independent "
+            "restatement of the documented rule; non-trivial = containers with >= 2 items",
+    "assumptions": ["sort_unstable = insertion sort for len <= 20 (exact, core::slice::sort::unstable); above 20 the std algorithm is not "
+                    "modelled: the theorem is then about the model only and the tie is the implementation-side dominance check",
+                    "CmpLaws.law_abs_sub_sym (|x-y| = |y-x| in binary32) is a hypothesis of C08_prefers_is_two_sided; the theorems "
+                    "C08_dominant_first / C08_dominated_last themselves take the two-sided condition and assume nothing"],
+    "trusted": ["Flocq's 4 standard axioms under C08_f32_order_total only"],
+}
+
+
 def _tok(line):
     return line.split(" ")
 
